@@ -1,10 +1,10 @@
 (* Property C10 -- statements only; proofs live in Proofs/C10_*.v.
    "Signatures and key agreement are sound, strict and never emitted when faulty". *)
 From Coq Require Import ZArith List Bool String.
-From TV Require Import Base.Prelude Gen.C10_Tables Model.C10_RsaMath Model.C10_RsaSig Model.C10_Dh
+From TV Require Import Base.Prelude Gen.C10_Tables Model.C10_RsaMath Model.C10_RsaSig Model.C10_Dh Model.C10_Dsa
      Model.C10_SignSites Spec.C10_DigestInfo
      Proofs.C10_BytesP Proofs.C10_MathP Proofs.C10_Pkcs1P Proofs.C10_PssP Proofs.C10_DhP
-     Proofs.C10_SitesP Proofs.C10_TieP.
+     Proofs.C10_SitesP Proofs.C10_TieP Proofs.C10_PssRsaP Proofs.C10_DsaP Toy.ToyMac.
 Import ListNotations.
 Open Scope Z_scope.
 
@@ -119,6 +119,73 @@ Theorem pss_verify_checks_all :
   forall (hash : list Z -> list Z) hLen mHash EM emBits sLen,
     EMSA_PSS_verify hash hLen mHash EM emBits sLen = Ok true <-> pss_checks hash hLen mHash EM emBits sLen.
 Proof. exact pss_verify_iff. Qed.
+
+(* a PSS signature made with the blinded CRT private operation verifies, for every valid key
+   whose bit length is not 1 modulo 8, every hash oracle with fixed output length, every message
+   hash and EVERY salt (of any length that fits); and signing then succeeds *)
+Theorem pss_sign_verifies :
+  forall k, crt_shape_ok k = true ->
+    (forall x, 0 <= x < rk_n k -> (x ^ rk_e k) ^ rk_d k mod rk_n k = x) ->
+    (forall x, 0 <= x < rk_p k -> x ^ rk_dP k mod rk_p k = x ^ rk_d k mod rk_p k) ->
+    (forall x, 0 <= x < rk_q k -> x ^ rk_dQ k mod rk_q k = x ^ rk_d k mod rk_q k) ->
+    forall b, blind_inv k b ->
+    forall (hash : list Z -> list Z) hLen,
+      0 < hLen -> (forall m, zlen (hash m) = hLen) -> (forall m, all_bytes (hash m) = true) ->
+      numBits (rk_n k) mod 8 <> 1 -> numBytes (rk_n k) <= 2 ^ 32 ->
+      forall mHash salt, all_bytes salt = true ->
+        (forall S, RSASSA_PSS_sign hash hLen (rk_n k) (crt_priv k b) mHash salt = Ok S ->
+                   RSASSA_PSS_verify hash hLen (rk_n k) (rk_e k) mHash S (zlen salt) = Ok true) /\
+        (hLen + zlen salt + 2 <= numBytes (rk_n k) ->
+         exists S, RSASSA_PSS_sign hash hLen (rk_n k) (crt_priv k b) mHash salt = Ok S).
+Proof. exact pss_sign_verifies_crt. Qed.
+
+(* encoding then verifying, at the EMSA level, for every emBits *)
+Theorem pss_encode_verifies :
+  forall (hash : list Z -> list Z) hLen,
+    0 < hLen -> (forall m, zlen (hash m) = hLen) -> (forall m, all_bytes (hash m) = true) ->
+    forall mHash emBits salt EM,
+      0 < emBits -> all_bytes salt = true -> divceil emBits 8 - hLen - 1 <= 2 ^ 32 * hLen ->
+      EMSA_PSS_encode hash hLen mHash emBits salt = Ok EM ->
+      zlen EM = divceil emBits 8 /\ all_bytes EM = true /\ bytesToNumber EM < 2 ^ emBits /\
+      EMSA_PSS_verify hash hLen mHash EM emBits (zlen salt) = Ok true.
+Proof. exact pss_encode_then_verify. Qed.
+
+(* FULL statement "pss signing works for every valid key size" does NOT hold: when the modulus has
+   8k+1 bits, EM has k bytes but _raw_private_key_op_bytes insists on k+1: signing always fails
+   (and, symmetrically, verification mis-slices valid signatures).  General form and a witness. *)
+Theorem pss_sign_fails_when_modbits_1_mod_8 :
+  forall (hash : list Z -> list Z) hLen,
+    0 < hLen -> (forall m, zlen (hash m) = hLen) -> (forall m, all_bytes (hash m) = true) ->
+    forall n (priv : Z -> Z), 0 < n -> numBytes n <= 2 ^ 32 ->
+    forall mHash salt, numBits n mod 8 = 1 -> 2 <= numBits n -> all_bytes salt = true ->
+      exists x, RSASSA_PSS_sign hash hLen n priv mHash salt = Err x.
+Proof. exact pss_sign_fails_modbits_1_mod_8. Qed.
+
+Theorem pss_sign_fails_modbits_1_mod_8_refuted :
+  numBits n65 = 65 /\ 4 + 0 + 2 <= numBytes n65 - 1 /\
+  forall (priv : Z -> Z) mHash, exists x, RSASSA_PSS_sign (toy_mac [1] 4) 4 n65 priv mHash [] = Err x.
+Proof. exact pss_sign_total_witness. Qed.
+
+(* ===== DSA (python_dsakey.py, integer level) ==================================== *)
+(* a signature (r, s) made by sign() with ANY nonce k invertible mod q verifies, provided g has
+   order dividing q, y = g^x, and r, s are non-zero (otherwise verify rejects by range) *)
+Theorem dsa_sign_verifies :
+  forall key, 1 < dk_p key -> 1 < dk_q key -> 0 <= dk_x key ->
+    dk_g key ^ dk_q key mod dk_p key = 1 -> dk_y key = powmod (dk_g key) (dk_x key) (dk_p key) ->
+    forall data k kinv w, 0 <= k -> (k * kinv) mod dk_q key = 1 ->
+      let '(r, s) := dsa_sign key data k kinv in
+      (s * w) mod dk_q key = 1 -> 0 < r -> 0 < s -> dsa_verify key r s data w = true.
+Proof. exact dsa_sign_then_verify. Qed.
+
+Theorem dsa_verify_rejects_out_of_range :
+  forall key r s data w, (r <= 0 \/ dk_q key <= r \/ s <= 0 \/ dk_q key <= s) ->
+    dsa_verify key r s data w = false.
+Proof. exact dsa_verify_range. Qed.
+
+Example dsa_hypotheses_instance :
+  dk_g toy_dsa ^ dk_q toy_dsa mod dk_p toy_dsa = 1 /\
+  dk_y toy_dsa = powmod (dk_g toy_dsa) (dk_x toy_dsa) (dk_p toy_dsa).
+Proof. exact toy_dsa_ok. Qed.
 
 (* ===== finite-field Diffie-Hellman ================================================ *)
 Theorem ffdh_agree :
